@@ -91,7 +91,7 @@ PROPS = {
                 {"name": "c04_unverified_put", "covers": ["put", "oversized", "unparseable", "forwarded"], "quick": {"max_paths": 1000, "timeout": 300}},
             ]},
             {"engine": "D", "crate": "d_node", "harnesses": [
-                {"name": "c04_key_binding", "covers": ["foreign_key", "derived_key"], "quick": {"max_paths": 1000, "timeout": 600}},
+                {"name": "c04_key_binding", "covers": ["foreign_key", "derived_key", "content_already_held_under_its_own_key"], "quick": {"max_paths": 1000, "timeout": 600}},
                 {"name": "c07_union", "only": ["tx:foreign_owner_entry_never_stored", "no_panic"], "covers": ["transactions"], "quick": {"max_paths": 1000, "timeout": 600}},
             ]},
         ],
@@ -105,6 +105,7 @@ PROPS = {
                 {"name": "c05_event_step", "covers": ["terminal", "still_pending", "value_returned", "split_returned", "mismatch_returned", "not_found_returned", "not_enough_returned", "timeout_returned", "same_peer_answers_twice"], "quick": {"max_paths": 200000, "timeout": 900},
                  "thorough": {"env": {"C05_MAXV": 3, "C05_MAXR": 3}, "max_paths": 3000000, "timeout": 3400}},
                 {"name": "c05_dedup", "covers": ["both_waiting", "second_caller_got_value"], "quick": {"max_paths": 10000, "timeout": 600}},
+                {"name": "c05_split_transactions", "covers": ["completed", "union_returned"], "quick": {"max_paths": 10000, "timeout": 600}},
             ]},
             {"engine": "K", "crate": "k_misc", "harnesses": [
                 kh("c05_quorum_value_exact", "get_quorum_value: N(n) -> n for every non-zero n, One -> 1, All -> CLOSE_GROUP_SIZE, Majority -> least count above half", "all 2^64-1 values of n"),
